@@ -52,6 +52,21 @@ def byValue (p : Policy) (client : Str) (outer : Params) (ro : Option RO) : Res 
     if o.clientId.isNone then .refused else
     .effective o.params            -- outer parameters absent from the object are deleted, the rest replaced
 
+/-- `for k, v in object.items(): request[k] = v`: what the object says replaces the same-named outer parameter, the other outer
+    parameters stay -/
+def overlay (outer inner : Params) : Params :=
+  inner ++ outer.filter (fun kv => !inner.any (fun iv => iv.1 == kv.1))
+
+/-- by reference (`request_uri`, fetched by the provider): `from_jwt` verifies under the keys of the object's issuer — the identified
+    client's when the object names none —, then the algorithm policy and (after the fix for F-C16-g) the issuer match, and the
+    object's parameters are laid over the outer ones. `verifies` = signed by the identified client. The code does NOT compare the
+    object's client_id with the identified client (known finding F-C16-h: the repository's own test passes such an object). -/
+def byReference (p : Policy) (client : Str) (outer : Params) (o : RO) : Res :=
+  if !o.verifies then .refused else
+  if !allowedAlg p o.alg then .refused else
+  if o.iss.isSome ∧ o.iss ≠ some client then .refused else
+  .effective (overlay outer o.params)
+
 /-! ### PAR -/
 
 structure ParEntry where
